@@ -77,6 +77,7 @@ func (h *H) resyncOnce(from, to *Node, plan func(i int) Plan) bool {
 		}
 		// a second sync on the same connection: when it has arrived, every earlier sync that is going to arrive has
 		if tell(5 * time.Second) {
+			from.Barrier() // the syncs' sender-side events are on record before the caller opens an event window
 			return true
 		}
 	}
@@ -569,6 +570,11 @@ func (h *H) runFrame() {
 		h.runChurn()
 		return
 	}
+	if os.Getenv("XV_ONLY") == "coldstart" {
+		// debugging aid: the first-contact scenarios alone
+		h.coldStart()
+		return
+	}
 	A, err := StartNode("A", 0, nil)
 	if err != nil {
 		panic(err)
@@ -664,6 +670,7 @@ func (h *H) runFrame() {
 	h.handshakeSplit(A, B)
 	h.directRound(mixed)
 	h.runChurn()
+	h.coldStart()
 	names := make([]string, 0, len(rounds))
 	for _, rc := range rounds {
 		names = append(names, rc.name)
